@@ -967,6 +967,11 @@ def configs(ctx):
             for ev, dr in (("q1", 0), ("p2", -1), ("q1", -1), ("never", 0)):
                 out.append(("adaptive", p, kw, "asc", ev, dr))
         out.append(("adaptive", p, {"rtol": 1e-8, "atol": 1e-10, "max_step": 0.05}, "asc", None, 0))
+        # options that must not be mixed up when they are handed to the twin (rtol/atol far apart, no step cap)
+        out.append(("adaptive", p, {"rtol": 1e-6, "atol": 1e-11}, "asc", None, 0))
+        out.append(("adaptive", p, {"rtol": 1e-6, "atol": 1e-11}, "asc", "q1", 0))
+        out.append(("adaptive", p, {"rtol": 1e-11, "atol": 1e-6}, "uneven", None, 0))
+        out.append(("adaptive", p, {"rtol": 1e-7, "atol": 1e-7, "min_step": 1e-3}, "asc", None, 0))
     return out
 
 
